@@ -103,7 +103,7 @@ ConnNet(r, c) == IF r.connMap[c] >= 0 THEN r.conns[r.connMap[c]].net ELSE "nonet
 
 GhostRouterStep ==
     LET out(n) == NewOut(n)
-        newFwd(c, f) == LET ns == {x \in Nets : NetCid[x] = c /\ FwdMs(out(x), f) # <<>>} IN
+        newFwd(c, f) == LET ns == {x \in Nets : nets[x].cid = c /\ FwdMs(out(x), f) # <<>>} IN
                         IF ns = {} THEN <<>> ELSE FwdMs(out(CHOOSE x \in ns : TRUE), f)
         rem(n) == MatchAcks(AcksOf(out(n)), G.owed[n])
         failed(n) == rem(n) # <<>> /\ rem(n)[1][1] = "FAIL"
@@ -123,7 +123,7 @@ GhostRouterStep ==
                             ELSE IF ConnNet(R, c) # ConnNet(R', c) /\ k >= st /\ k - st < Len(base) THEN SubSeq(base, 1, k - st)
                             ELSE base]],
             !.spurious = @ \/ \E n \in Nets : \E i \in 1..Len(out(n)) :
-                             out(n)[i].t = "forward" /\ out(n)[i].kind \notin SubsOf(R', NetCid[n]) /\ out(n)[i].kind \notin SubsOf(R, NetCid[n]),
+                             out(n)[i].t = "forward" /\ out(n)[i].kind \notin SubsOf(R', nets[n].cid) /\ out(n)[i].kind \notin SubsOf(R, nets[n].cid),
             !.badAck = @ \/ \E n \in Nets : failed(n),
             !.owed = [n \in Nets |-> IF failed(n) THEN G.owed[n] ELSE rem(n)]]
 
@@ -191,7 +191,7 @@ NDrain(n) ==
 \* the link task ends (peer closed, keep-alive, protocol error): Disconnect event unless the router dropped it first
 NClose(n) ==
     /\ nets[n].phase = "up" /\ G.nclose < MaxCloses
-    /\ nets' = [nets EXCEPT ![n].phase = "closed"]
+    /\ nets' = [nets EXCEPT ![n].phase = "closed"]        \* the link (and its doorbell receiver) is dropped: no further rings
     /\ chan' = Append(chan, Ev("Disconnect", nets[n].id, 0))
     /\ G' = [G EXCEPT !.nclose = @ + 1, !.toAck[n] = <<>>, !.toComp[n] = <<>>, !.toRel[n] = <<>>, !.owed[n] = <<>>]
     /\ UNCHANGED R
@@ -207,6 +207,15 @@ NWill(n) ==
 (*                                 clients                                 *)
 
 NextPk(n) == G.cpk[n] + 1
+
+\* replies the broker owes for a packet it accepts
+Owes(p) == CASE p.t = "publish" /\ p.msg.q = 1 -> << <<"puback", p.id>> >>
+             [] p.t = "publish" /\ p.msg.q = 2 -> << <<"pubrec", p.id>> >>
+             [] p.t = "subscribe"   -> << <<"suback", p.id>> >>
+             [] p.t = "unsubscribe" -> << <<"unsuback", p.id>> >>
+             [] p.t = "pubrel"      -> << <<"pubcomp", p.id>> >>
+             [] p.t = "pingreq"     -> << <<"pingresp", 0>> >>
+             [] OTHER -> <<>>
 
 CSubscribe(n) ==
     /\ n \in Subscribers /\ G.nsub < MaxSubOps
